@@ -82,6 +82,21 @@ class AddrOf:
         self.d = d
 
 
+class LocalArr:
+    """function-local C array of constant extent (`bool skip[BlockSize_]`, `DT_ nrm[3]`): per-element values.  Stores to it are
+    local bookkeeping, not part of the footprint; reads yield the value last stored (guards kept in such an array are thereby
+    resolved to the atoms they were computed from)."""
+
+    def __init__(self, name, d, dims):
+        self.name, self.d, self.dims = name, d, tuple(dims)
+        self.cells = {}
+
+
+def is_handle(v):
+    """element handle of a function-local aggregate: ('tiny', TinyVal, i) / ('larr', LocalArr, key)"""
+    return isinstance(v, tuple) and len(v) == 3 and v[0] in ("tiny", "larr")
+
+
 NULL = sp.Symbol("nullptr")
 
 ARRAY_ACC = {"elements", "indices", "val", "col_ind", "row_ptr"}
@@ -117,6 +132,8 @@ class Exec:
         self.frame_base = 0
         self.retval = None
         self.cur_fn = fn
+        self.refs = set()       # decl ids of reference locals / parameters bound to a memory cell or a local aggregate element
+        self.fresh = 0
 
     # ---- atoms ---------------------------------------------------------------------------------
     def atom(self, name):
@@ -138,6 +155,8 @@ class Exec:
                 r = sp.Not(self.atom("isnan(%s)" % sp.sstr(sexp(a))))      # x == x is the NaN test of a value read from memory
             elif d.is_number:
                 r = sp.true if d == 0 else sp.false
+            elif self.range_sign(d) is True or self.range_sign(sp.expand(-d)) is True:
+                r = sp.false           # a - b != 0 inside the (non-empty) range of an active loop
             else:
                 if d.as_ordered_terms()[0].as_coeff_Mul()[0] < 0:
                     d = sp.expand(-d)
@@ -182,7 +201,32 @@ class Exec:
             m = sp.expand(e + (s_ - lo))
             if m.is_number and m <= 0:
                 return False           # e = m - (s - lo) <= 0
+            m = sp.expand(e - (hi - lo))
+            if m.is_number and m >= 0:
+                return True            # the generic iteration exists, so hi - lo >= 1: e = (hi - lo) + m >= 1
+            m = sp.expand(e + (hi - lo))
+            if m.is_number and m <= 0:
+                return False           # e = m - (hi - lo) <= -1
         return None
+
+    def refine(self, pc):
+        """path condition with the comparison atoms that the ranges of the active symbolic loops decide folded away (a guard
+        `if(ue == 0) return;` in front of `for(i < ue)` is no condition on the stores of the generic iteration i)"""
+        if not isinstance(pc, sp.Basic) or pc is sp.true or pc is sp.false or not any(lp.get("symbolic") for lp in self.loops):
+            return pc
+        sub = {}
+        for a in pc.free_symbols:
+            info = self.atom_info.get(a)
+            if not info:
+                continue
+            if info[0] == "zero":
+                if self.range_sign(info[1]) is True or self.range_sign(sp.expand(-info[1])) is True:
+                    sub[a] = sp.false
+            elif info[0] == "pos":
+                r = self.range_sign(info[1])
+                if r is not None:
+                    sub[a] = sp.true if r else sp.false
+        return sp.simplify_logic(pc.subs(sub)) if sub else pc
 
     def truth(self, v):
         if isinstance(v, Obj):
@@ -207,6 +251,7 @@ class Exec:
 
     def read(self, cell, pc):
         key = (cell.arr.name, tuple(sexp(i) for i in cell.idx))
+        pc = self.refine(pc)
         if key in self.mem:
             lst = self.mem[key]
             lpc, val = lst[-1]
@@ -221,6 +266,7 @@ class Exec:
 
     def store(self, cell, val, pc, node, broadcast=False):
         key = (cell.arr.name, tuple(sexp(i) for i in cell.idx))
+        pc = self.refine(pc)
         for (an, idx2) in self.mem:
             if an == key[0] and idx2 != key[1] and (len(idx2) != len(key[1]) or not self._distinct(idx2, key[1])):
                 raise Incomplete("store to %s may alias the earlier store to %s[%s]" % (cell, an, idx2))
@@ -262,6 +308,13 @@ class Exec:
             if not idx.is_Integer:
                 raise Incomplete("symbolic component index on a local Tiny value")
             return ("tiny", base, int(idx))
+        if isinstance(base, LocalArr) or (is_handle(base) and base[0] == "larr"):
+            arr, key = (base, ()) if isinstance(base, LocalArr) else (base[1], base[2])
+            if not idx.is_Integer:
+                raise Incomplete("symbolic subscript %s on the local array %s" % (idx, arr.name))
+            if len(key) >= len(arr.dims) or not (0 <= int(idx) < arr.dims[len(key)]):
+                raise Incomplete("subscript %s outside the extent %s of the local array %s" % (key + (int(idx),), list(arr.dims), arr.name))
+            return ("larr", arr, key + (int(idx),))
         if isinstance(base, Obj):
             return sp.Function("comp")(sp.Symbol(base.path), idx)
         if isinstance(base, sp.Expr):
@@ -272,6 +325,15 @@ class Exec:
         """r-value of an element handle"""
         if isinstance(v, tuple) and v and v[0] == "tiny":
             return v[1].get(v[2])
+        if is_handle(v) and v[0] == "larr":
+            arr, key = v[1], v[2]
+            if len(key) != len(arr.dims):
+                raise Incomplete("row of the local array %s used as a value" % arr.name)
+            if key not in arr.cells:
+                raise Incomplete("element %s of the local array %s is read before it is set" % (list(key), arr.name))
+            return arr.cells[key]
+        if isinstance(v, LocalArr):
+            raise Incomplete("local array %s used as a pointer value" % v.name)
         return v
 
     # ---- expressions ---------------------------------------------------------------------------
@@ -328,12 +390,15 @@ class Exec:
             op = n["op"]
             if op == "&":
                 e = n["e"]
-                if e.get("k") == "Ref" and e.get("dk") == "local":
+                if e.get("k") == "Ref" and e.get("dk") == "local" and not isinstance(env.get(e["d"]), (Cell, LocalArr)):
                     return AddrOf(e["d"])
+                tv = self.ev(e, env, pc)
+                if isinstance(tv, Cell) and len(tv.idx) == 1:
+                    return Arr(tv.arr.name, tv.idx[0])       # &a[e] == a + e
                 raise Incomplete("address-of %s" % render(e))
             if op in ("++", "--"):
                 lv = n["e"]
-                if lv.get("k") == "Ref" and lv.get("d") in env:
+                if lv.get("k") == "Ref" and lv.get("d") in env and lv["d"] not in self.refs and not isinstance(env[lv["d"]], (Arr, LocalArr)):
                     old = self.scalar(env[lv["d"]], pc)
                     self.assign_local(lv["d"], old + (1 if op == "++" else -1), env, pc)
                     return old if n.get("post") else env[lv["d"]]
@@ -412,8 +477,10 @@ class Exec:
         op = n["op"]
         lhs = n["lhs"]
         rhs = self.rv(self.ev(n["rhs"], env, pc), pc)
-        if lhs.get("k") == "Ref" and lhs.get("dk") in ("local", "param"):
+        if lhs.get("k") == "Ref" and lhs.get("dk") in ("local", "param") and not (lhs.get("d") in self.refs and (isinstance(env.get(lhs["d"]), Cell) or is_handle(env.get(lhs["d"])))):
             d = lhs["d"]
+            if isinstance(env.get(d), (Arr, LocalArr)) and op != "=":
+                raise Incomplete("compound assignment to the pointer / array %s" % lhs.get("n"))
             if op != "=":
                 rhs = self.arith(op[:-1], self.scalar(env[d], pc), self.scalar(rhs, pc), n)
             elif isinstance(rhs, Cell):
@@ -429,6 +496,28 @@ class Exec:
             if pc != self.env_pc.get(id(tv), pc):
                 raise Incomplete("conditional store to a local Tiny value")
             tv.cells[i] = val
+            return val
+        if is_handle(target) and target[0] == "larr":
+            _, arr, key = target
+            if len(key) != len(arr.dims):
+                raise Incomplete("assignment to a row of the local array %s" % arr.name)
+            for lp in self.loops:
+                if lp["symbolic"] and arr.d in lp["outer_decls"]:
+                    raise Incomplete("local array %s is written inside a symbolic loop it outlives" % arr.name)
+            if op != "=":
+                val = self.arith(op[:-1], self.scalar(self.rv(target, pc), pc), val, n)
+            dpc = self.env_pc.get(arr.d, sp.true)
+            if pc != dpc:
+                if key not in arr.cells:
+                    raise Incomplete("conditional first store to an element of the local array %s" % arr.name)
+                oldv = arr.cells[key]
+                if isinstance(val, sp.logic.boolalg.Boolean) and isinstance(oldv, sp.logic.boolalg.Boolean):
+                    val = sp.ITE(pc, val, oldv)
+                elif isinstance(val, sp.Expr) and isinstance(oldv, sp.Expr):
+                    val = sp.Piecewise((val, pc), (oldv, True))
+                else:
+                    raise Incomplete("conditional store to an element of the local array %s" % arr.name)
+            arr.cells[key] = val
             return val
         if isinstance(target, Cell):
             if op != "=":
@@ -517,6 +606,23 @@ class Exec:
             return {"sqr": v * v, "abs": sp.Abs(v), "sqrt": sp.sqrt(v)}[callee.rsplit("::", 1)[-1]]
         if n.get("ccls") and n.get("ccls") == self.fn.cls and self.fn.cls.startswith("FEAT::LAFEM::Arch::") and n.get("cdecl") in self.by_decl:
             return self.inline(n, env, pc)      # helper of the same Arch struct called by a kernel
+        if callee in ("std::fill", "std::fill_n", "std::copy", "std::copy_n") and len(n.get("a", [])) == 3:
+            # standard algorithms on raw arrays as the loops they stand for
+            a0, a1, a2 = [self.rv(self.ev(x, env, pc), pc) for x in n["a"]]
+            if callee in ("std::fill", "std::copy"):
+                if not (isinstance(a0, Arr) and isinstance(a1, Arr) and a0.name == a1.name):
+                    raise Incomplete("%s: first/last are not offsets into the same raw array (%s)" % (callee, render(n)[:80]))
+                count = sexp(a1.off - a0.off)
+            else:
+                count = self.scalar(a1, pc)
+            if callee in ("std::fill", "std::fill_n"):
+                dst = a0
+                val = self.scalar(a2, pc)
+                return self.range_op(dst, count, lambda k_, pc_: val, env, pc, n, callee)
+            src, dst = a0, a2
+            if not isinstance(src, Arr):
+                raise Incomplete("%s: source is not a raw array range" % callee)
+            return self.range_op(dst, count, lambda k_, pc_: self.read(Cell(src, (sexp(src.off + k_),)), pc_), env, pc, n, callee)
         if callee == "std::isnan" and len(n.get("a", [])) == 1:
             v = self.scalar(self.rv(self.ev(n["a"][0], env, pc), pc), pc)
             return self.atom("isnan(%s)" % sp.sstr(sexp(v)))
@@ -543,6 +649,12 @@ class Exec:
             pty = f.type(p["t"]).replace("const", "").strip()
             if isinstance(val, Cell) and not pty.endswith("&") and not pty.endswith("*") and not re.search(r"Tiny::|ValueType", pty):
                 val = self.read(val, pc)
+            if pty.endswith("&") and not pty.endswith("&&") and not isinstance(val, Cell):
+                raw = self.ev(a, env, pc) if a.get("k") in ("Ref", "Index", "OpCall") else None
+                if is_handle(raw):
+                    val = raw
+            if pty.endswith("&") and (isinstance(val, Cell) or is_handle(val)):
+                self.refs.add(p["d"])
             env2[p["d"]] = val
             self.env_pc[p["d"]] = pc
         if len(f.params) != len(n.get("a", [])):
@@ -572,12 +684,25 @@ class Exec:
             return pc
         if k == "Decl":
             for v in n["vars"]:
-                if v.get("init") is not None:
-                    val = self.rv(self.ev(v["init"], env, pc), pc)
-                    if isinstance(val, Cell) and not re.search(r"Tiny::|ValueType", self.cur_fn.type(v["t"])):
-                        val = self.read(val, pc)
+                ty = self.cur_fn.type(v["t"]) or ""
+                am = re.match(r"^(?:const\s+)?[\w:<>, ]+?((?:\[\d+\])+)$", ty.strip())
+                if am and (v.get("init") is None or v["init"].get("k") == "InitList"):
+                    # function-local array of constant extent
+                    la = LocalArr(v["n"], v["d"], [int(x) for x in re.findall(r"\[(\d+)\]", am.group(1))])
+                    if v.get("init") is not None:
+                        self.init_local_array(la, v["init"], env, pc)
+                    val = la
+                elif v.get("init") is not None:
+                    raw = self.ev(v["init"], env, pc)
+                    if v.get("ref") and (is_handle(raw) or (isinstance(raw, Cell) and not re.search(r"Tiny::|ValueType", ty))):
+                        # reference alias: later reads / writes go to the denoted element (the subscripts are values, fixed at this point)
+                        val = raw
+                        self.refs.add(v["d"])
+                    else:
+                        val = self.rv(raw, pc)
+                        if isinstance(val, Cell) and not re.search(r"Tiny::|ValueType", ty):
+                            val = self.read(val, pc)
                 else:
-                    ty = self.cur_fn.type(v["t"])
                     val = sp.Symbol("uninit_" + v["n"]) if not re.search(r"Tiny::|ValueType", ty) else TinyVal(sp.Symbol("uninit_" + v["n"]))
                 env[v["d"]] = val
                 self.env_pc[v["d"]] = pc
@@ -600,6 +725,8 @@ class Exec:
             return pc if sp.simplify_logic(sp.Equivalent(r, pc)) is sp.true else r
         if k == "For":
             return self.loop(n, env, pc)
+        if k == "While":
+            return self.while_loop(n, env, pc)
         if k == "Return":
             if len(self.loops) > self.frame_base:
                 raise Incomplete("return inside a loop")
@@ -627,15 +754,71 @@ class Exec:
             return pc
         raise Incomplete("statement kind %s (%s)" % (k, render(n)[:60]))
 
+    def init_local_array(self, la, init, env, pc):
+        """`T a[n] = {x, y}` (missing trailing elements are value-initialised)"""
+        if len(la.dims) != 1:
+            raise Incomplete("initialiser list of the multi-dimensional local array %s" % la.name)
+        items = init.get("a") or init.get("e") or init.get("s") or []
+        if not isinstance(items, list) or len(items) > la.dims[0]:
+            raise Incomplete("initialiser of the local array %s" % la.name)
+        for i in range(la.dims[0]):
+            la.cells[(i,)] = self.scalar(self.rv(self.ev(items[i], env, pc), pc), pc) if i < len(items) else sp.Integer(0)
+
+    # ---- loops ---------------------------------------------------------------------------------
+    @staticmethod
+    def _step_of(x, dd):
+        """+1 / -1 if statement x advances the variable with decl id dd by one, else None"""
+        if x is None:
+            return None
+        if x.get("k") == "Un" and x.get("op") in ("++", "--") and (x.get("e") or {}).get("k") == "Ref" and x["e"].get("d") == dd:
+            return 1 if x["op"] == "++" else -1
+        if x.get("k") == "Assign" and x.get("op") in ("+=", "-=") and (x.get("lhs") or {}).get("k") == "Ref" and x["lhs"].get("d") == dd \
+           and (x.get("rhs") or {}).get("k") == "Int" and x["rhs"].get("v") == "1":
+            return 1 if x["op"] == "+=" else -1
+        return None
+
+    @staticmethod
+    def _ind_side(x):
+        """(decl id, k) if the comparison operand x is `i` or `i + k` / `i - k` / `k + i` for a variable i and an integer literal k"""
+        def unc(y):
+            while y is not None and y.get("k") == "Cast":
+                y = y["e"]
+            return y or {}
+        x = unc(x)
+        if x.get("k") == "Ref":
+            return x.get("d"), 0
+        if x.get("k") == "Bin" and x.get("op") in ("+", "-"):
+            a_, b_ = unc(x["lhs"]), unc(x["rhs"])
+            if a_.get("k") == "Ref" and b_.get("k") == "Int":
+                return a_.get("d"), int(b_["v"]) if x["op"] == "+" else -int(b_["v"])
+            if x["op"] == "+" and b_.get("k") == "Ref" and a_.get("k") == "Int":
+                return b_.get("d"), int(a_["v"])
+        return None, 0
+
+    @staticmethod
+    def _modifies(x, dd):
+        return x.get("k") in ("Assign", "Un") and ((x.get("lhs") or x.get("e") or {}).get("k") == "Ref") and (x.get("lhs") or x.get("e")).get("d") == dd \
+            and x.get("op") in ("=", "+=", "-=", "*=", "/=", "++", "--")
+
+    def while_loop(self, n, env, pc):
+        """`while(i < hi) { body; ++i; }` is the loop `for(; i < hi; ++i) body` if the step is the last statement of the body and no
+        `continue` can skip it"""
+        c, body = n.get("c"), n.get("body")
+        d = None
+        if c and c.get("k") == "Bin":
+            for side in ("lhs", "rhs"):
+                xd = self._ind_side(c[side])[0]
+                if xd is not None and xd in env and self._step_of((body.get("s") or [None])[-1] if body and body.get("k") == "Block" else None, xd):
+                    d = xd
+        if d is None:
+            raise Incomplete("while loop that is not `while(i <cmp> bound) { ...; ++i / --i; }` (%s)" % render(c)[:60])
+        if any(x.get("k") == "Continue" for x in walk(body, prune=lambda x: x.get("k") in ("For", "While", "Do", "ForRange"))):
+            raise Incomplete("`continue` in a while loop whose step is the last statement of the body")
+        stmts = body["s"]
+        return self.counted_loop(n, d, None, c, [stmts[-1]], {"k": "Block", "s": stmts[:-1]}, env, pc, live_after=True)
+
     def loop(self, n, env, pc):
         init, c, inc = n.get("init"), n.get("c"), n.get("inc")
-        if not (init and init.get("k") == "Decl" and len(init["vars"]) == 1 and init["vars"][0].get("init") is not None):
-            raise Incomplete("loop initialiser %s" % render(init))
-        var = init["vars"][0]
-        d = var["d"]
-        lo = sexp(self.scalar(self.rv(self.ev(var["init"], env, pc), pc), pc))
-        if not (c and c.get("k") == "Bin" and c["op"] in ("<", "<=", "!=") and c["lhs"].get("k") == "Ref" and c["lhs"].get("d") == d):
-            raise Incomplete("loop condition %s" % render(c))
         incs = []
 
         def split(x):
@@ -645,79 +828,144 @@ class Exec:
             elif x is not None:
                 incs.append(x)
         split(inc)
+        # the induction variable is the one the condition compares
+        cand = []
+        if c and c.get("k") == "Bin":
+            for side in ("lhs", "rhs"):
+                xd = self._ind_side(c[side])[0]
+                if xd is not None and any(self._step_of(y, xd) for y in incs):
+                    cand.append(xd)
+        if init is not None and init.get("k") == "Decl" and all(v.get("init") is not None for v in init["vars"]):
+            self.block(init, env, pc)
+            declared = [v["d"] for v in init["vars"]]
+            main = [d_ for d_ in cand if d_ in declared]
+            if len(main) != 1:
+                raise Incomplete("loop condition %s" % render(c))
+            return self.counted_loop(n, main[0], [v for v in init["vars"] if v["d"] == main[0]][0]["n"], c, incs, n["body"], env, pc)
+        if init is None and len(cand) == 1 and cand[0] in env:
+            return self.counted_loop(n, cand[0], None, c, incs, n["body"], env, pc, live_after=True)
+        if init is not None and init.get("k") == "Assign" and init.get("op") == "=" and (init.get("lhs") or {}).get("k") == "Ref" and init["lhs"].get("d") in cand:
+            self.ev(init, env, pc)
+            return self.counted_loop(n, init["lhs"]["d"], None, c, incs, n["body"], env, pc, live_after=True)
+        raise Incomplete("loop initialiser %s" % render(init))
 
-        def is_step(x, dd):
-            return ((x.get("k") == "Un" and x["op"] == "++" and x["e"].get("d") == dd) or
-                    (x.get("k") == "Assign" and x["op"] == "+=" and x["lhs"].get("d") == dd and x["rhs"].get("k") == "Int" and x["rhs"]["v"] == "1"))
-        main = [x for x in incs if is_step(x, d)]
+    def counted_loop(self, n, d, name, c, incs, body, env, pc, live_after=False):
+        """counted loop over an integer or a pointer (range [lo,hi) of the induction variable; upward or downward by one)"""
+        if name is None:
+            name = next((x.get("n") for x in walk(c) if x.get("k") == "Ref" and x.get("d") == d), "it")
+        start = env[d]
+        if isinstance(start, Cell):
+            start = self.read(start, pc)
+        if not isinstance(start, (sp.Expr, Arr)) or d in self.refs:
+            raise Incomplete("induction variable %s of the loop is not an integer / pointer value" % name)
+        for lp in self.loops:
+            if live_after and lp["symbolic"] and d in lp["outer_decls"]:
+                raise Incomplete("local carried across iterations of a symbolic loop")
+        steps = [self._step_of(x, d) for x in incs]
+        main = [x for x, st in zip(incs, steps) if st]
+        if len(main) != 1:
+            raise Incomplete("loop increment %s" % ", ".join(render(x) for x in incs))
+        step = self._step_of(main[0], d)
+        if not (c and c.get("k") == "Bin" and c["op"] in ("<", "<=", "!=", ">", ">=")):
+            raise Incomplete("loop condition %s" % render(c))
+        lhs, rhs, op = c["lhs"], c["rhs"], c["op"]
+        if self._ind_side(lhs)[0] != d:
+            lhs, rhs, op = rhs, lhs, {"<": ">", ">": "<", "<=": ">=", ">=": "<=", "!=": "!="}[op]
+            if self._ind_side(lhs)[0] != d:
+                raise Incomplete("loop condition %s" % render(c))
+        koff = self._ind_side(lhs)[1]          # condition compares i + koff (idealised integers: i + k < b  <=>  i < b - k)
+        if koff and op == "!=":
+            raise Incomplete("loop condition %s" % render(c))
+        if any(y.get("k") == "Ref" and y.get("d") == d for y in walk(rhs)):
+            raise Incomplete("loop condition %s" % render(c))
+        if (step > 0 and op not in ("<", "<=", "!=")) or (step < 0 and op not in (">", ">=", "!=")):
+            raise Incomplete("loop condition %s does not bound the direction of the step %s" % (render(c), render(main[0])))
         ptrs = []      # pointers advanced in lock-step with the loop variable: p == p0 + (i - lo) in iteration i
         for x in incs:
-            if x in main:
+            if x is main[0]:
                 continue
             tgt = (x.get("e") or x.get("lhs") or {})
             dd = tgt.get("d")
-            if tgt.get("k") == "Ref" and dd in env and isinstance(env[dd], Arr) and is_step(x, dd):
+            if tgt.get("k") == "Ref" and dd in env and isinstance(env[dd], Arr) and self._step_of(x, dd) == 1 and step > 0:
                 ptrs.append(dd)
             else:
                 raise Incomplete("loop increment %s" % render(x))
-        if len(main) != 1:
-            raise Incomplete("loop increment %s" % render(inc))
-        for x in walk(n["body"]):
-            if x.get("k") in ("Assign", "Un") and (x.get("lhs") or x.get("e") or {}).get("d") in ptrs and x.get("op") in ("=", "+=", "-=", "++", "--"):
+        for x in walk(body):
+            if any(self._modifies(x, dd) for dd in ptrs):
                 raise Incomplete("pointer advanced by the loop header is also modified in the body")
-        pbase = {dd: env[dd] for dd in ptrs}
-        for x in walk(n["body"]):
-            if x.get("k") in ("Assign", "Un") and (x.get("lhs") or x.get("e") or {}).get("d") == d and x.get("op") in ("=", "+=", "-=", "++", "--"):
+            if self._modifies(x, d):
                 raise Incomplete("loop variable modified in the body")
-        hi = sexp(self.scalar(self.rv(self.ev(c["rhs"], env, pc), pc), pc))
-        if c["op"] == "<=":
-            hi = sexp(hi + 1)
+        pbase = {dd: env[dd] for dd in ptrs}
+        bound = self.rv(self.ev(rhs, env, pc), pc)
+        if isinstance(bound, Cell):
+            bound = self.read(bound, pc)
+        # the induction variable as base + t
+        if isinstance(start, Arr):
+            if not (isinstance(bound, Arr) and bound.name == start.name):
+                raise Incomplete("pointer loop %s: start and end are not offsets into the same array" % render(c))
+            mk = lambda t: Arr(start.name, t)
+            first, bnd = sexp(start.off), sexp(bound.off - koff)
+        else:
+            if not isinstance(bound, sp.Expr):
+                raise Incomplete("loop bound %s" % render(rhs))
+            mk = lambda t: t
+            first, bnd = sexp(start), sexp(bound - koff)
+        if step > 0:
+            lo, hi = first, (sexp(bnd + 1) if op == "<=" else bnd)
+        else:
+            lo, hi = (bnd if op == ">=" else sexp(bnd + 1)), sexp(first + 1)
         if lo.is_Integer and hi.is_Integer:
             if hi - lo > 64:
                 raise Incomplete("constant loop too long")
             brk = [sp.false]   # condition under which an earlier iteration left the loop by `break`
-            for val in range(int(lo), int(hi)):
-                env[d] = sp.Integer(val)
+            order = list(range(int(lo), int(hi)))
+            if step < 0:
+                order.reverse()
+            for val in order:
+                env[d] = mk(sp.Integer(val))
                 for dd in ptrs:
                     env[dd] = pbase[dd].shifted(val - int(lo))
                 pci = pc if brk[0] is sp.false else sp.simplify_logic(sp.And(pc, sp.Not(brk[0])))
                 if pci is sp.false:
                     break
-                self.loops.append({"symbolic": False, "var": var["n"], "val": val, "lo": lo, "hi": hi, "outer_decls": (), "brk": brk})
+                self.loops.append({"symbolic": False, "var": name, "val": val, "lo": lo, "hi": hi, "outer_decls": (), "brk": brk})
                 try:
-                    self.block(n["body"], env, pci)
+                    self.block(body, env, pci)
                 finally:
                     self.loops.pop()
             for dd in ptrs:
                 if brk[0] is not sp.false:
                     raise Incomplete("pointer advanced by a loop that can be left by break")
                 env[dd] = pbase[dd].shifted(max(0, int(hi) - int(lo)))
+            if live_after:
+                if brk[0] is not sp.false:
+                    raise Incomplete("loop variable %s is live after a loop that can be left by break" % name)
+                env[d] = mk(sp.Integer(max(int(hi), int(lo)) if step > 0 else min(int(lo), int(hi)) - 1)) if order else start
             return pc
-        name = var["n"]
         active = {str(lp["sym"]) for lp in self.loops if lp["symbolic"]}
         while name in active:
             name += "_"
         s = isym(name)
-        env[d] = s
+        env[d] = mk(s)
         for dd in ptrs:
             env[dd] = pbase[dd].shifted(s - lo)
-        inner = {v["d"] for x in walk(n["body"]) if x.get("k") == "Decl" for v in x["vars"]}
+        inner = {v["d"] for x in walk(body) if x.get("k") == "Decl" for v in x["vars"]}
         outer = {x for x in env if x not in inner and x != d}
         # `break` in a symbolic loop: the generic iteration i runs iff no earlier iteration i' < i left the loop; that fact is a
         # free atom exited(i) (loop-exit summary).  A break whose condition contradicts the loop range is dead and ignored.
-        has_break = any(x.get("k") == "Break" for x in walk(n["body"], prune=lambda x: x.get("k") in ("For", "While", "Do", "ForRange", "Switch")))
+        has_break = any(x.get("k") == "Break" for x in walk(body, prune=lambda x: x.get("k") in ("For", "While", "Do", "ForRange", "Switch")))
         exit_atom = None
         if has_break:
             exit_atom = self.atom("exited(%s)" % name)
             self.atom_info[exit_atom] = ("exited", s)
-        frame = {"symbolic": True, "var": var["n"], "sym": s, "lo": lo, "hi": hi, "outer_decls": outer, "brk": [sp.false], "exit_atom": exit_atom}
+        frame = {"symbolic": True, "var": name, "sym": s, "lo": lo, "hi": hi, "outer_decls": outer, "brk": [sp.false], "exit_atom": exit_atom, "down": step < 0}
         if has_break:
             # dry run to learn the break condition; if it is dead (contradicts lo <= i < hi) the loop is analysed without it
             snap = (dict(self.mem), list(self.stores), list(self.events), list(self.asserts), dict(env))
             self.mem = {k_: list(v_) for k_, v_ in self.mem.items()}
             self.loops.append(frame)
             try:
-                self.block(n["body"], env, pc)
+                self.block(body, env, pc)
             finally:
                 self.loops.pop()
             dead = self.dead_in_range(frame["brk"][0], s, lo, hi)
@@ -732,14 +980,39 @@ class Exec:
                 frame["dead_break"] = True
         self.loops.append(frame)
         try:
-            self.block(n["body"], env, pc if exit_atom is None else sp.And(pc, sp.Not(exit_atom)))
+            self.block(body, env, pc if exit_atom is None else sp.And(pc, sp.Not(exit_atom)))
         finally:
             self.loops.pop()
         for dd in ptrs:
             if exit_atom is not None:
                 raise Incomplete("pointer advanced by a loop that can be left by break")
             env[dd] = pbase[dd].shifted(hi - lo)
+        if live_after:
+            self.fresh += 1
+            env[d] = mk(sp.Symbol("after_loop_%s_%d" % (name, self.fresh), integer=True))      # value after the loop: not modelled
         return pc
+
+    def range_op(self, dst, count, value_at, env, pc, node, what):
+        """std::fill / fill_n / copy / copy_n on raw arrays as the loop they stand for: dst[k] = value_at(k), 0 <= k < count"""
+        if not isinstance(dst, Arr):
+            raise Incomplete("%s: destination is not a raw array range" % what)
+        count = sexp(count)
+        if count.is_Integer:
+            if count > 64:
+                raise Incomplete("%s over a long constant range" % what)
+            for k_ in range(int(count)):
+                self.store(Cell(dst, (sexp(dst.off + k_),)), value_at(sp.Integer(k_), pc), pc, node)
+            return None
+        self.fresh += 1
+        s = isym("t%d" % self.fresh)
+        lo, hi = sexp(dst.off), sexp(dst.off + count)
+        frame = {"symbolic": True, "var": str(s), "sym": s, "lo": lo, "hi": hi, "outer_decls": set(env), "brk": [sp.false], "exit_atom": None}
+        self.loops.append(frame)
+        try:
+            self.store(Cell(dst, (s,)), value_at(sexp(s - lo), pc), pc, node)
+        finally:
+            self.loops.pop()
+        return None
 
     def dead_in_range(self, cond, s, lo, hi):
         """True if the break condition implies a literal that contradicts lo <= s < hi (integers)"""
@@ -956,6 +1229,19 @@ def sym_loop(s, sym):
     return None
 
 
+def entry_loop(s, it):
+    """(symbolic loop frame, shift) if the entry number `it` of a store is (loop variable) + integer constant, else (None, 0)"""
+    if not isinstance(it, sp.Basic):
+        return None, 0
+    for x in it.free_symbols:
+        lp = sym_loop(s, x)
+        if lp is not None:
+            shift = sp.expand(it - x)
+            if shift.is_Integer:
+                return lp, shift
+    return None, 0
+
+
 def asg_str(asg):
     return ", ".join("%s=%s" % (k, "T" if v else "F") for k, v in sorted(asg.items(), key=lambda kv: str(kv[0]))) or "-"
 
@@ -996,7 +1282,8 @@ def kernel_summary(facts, fn, by_decl):
         reads = [f for f in e.atoms(AppliedUndef)]
         idxs = [f for f in reads if f.func.__name__ == "sv_indices"]
         if len(s["idx"]) != 1 or len(idxs) != 1:
-            if not reads and len(s["idx"]) == 1:
+            range_reads = [f for lp_ in s["loops"] if lp_["symbolic"] and lp_["sym"] in e.free_symbols for f in (lp_["lo"].atoms(AppliedUndef) | lp_["hi"].atoms(AppliedUndef))]
+            if not reads and len(s["idx"]) == 1 and not range_reads:
                 ks.footprint.append("%s: position is computed from loop counters only, not from an sv_indices[.] entry: dofs that are not constrained are written" % where)
             else:
                 ks.unknown.append("%s: position is not recognisably derived from one sv_indices[.] entry" % where)
@@ -1010,11 +1297,11 @@ def kernel_summary(facts, fn, by_decl):
             ks.footprint.append("%s: position is %d*sv_indices[i]%+d, outside the block of the constrained dof (0<=c<%d): entries of other dofs are written" % (where, ks.bs, int(c), ks.bs))
             continue
         it = S.args[0]
-        lp = sym_loop(s, it) if isinstance(it, sp.Symbol) else None
+        lp, shift = entry_loop(s, it)
         if lp is None:
-            ks.unknown.append("%s: sv_indices is not subscripted by a plain loop variable (%s)" % (where, it))
+            ks.unknown.append("%s: sv_indices is not subscripted by a loop variable (+ constant) (%s)" % (where, it))
             continue
-        ranges.add((lp["lo"], lp["hi"]))
+        ranges.add((sp.expand(lp["lo"] + shift), sp.expand(lp["hi"] + shift)))      # range of the entry number it = loop variable + shift
         ks.isym = it
         ks.cells.setdefault(int(c), []).append(s)
     if len(ranges) == 1:
@@ -1274,13 +1561,14 @@ def matrix_summary(facts, fn, by_decl):
                 ms.unknown.append("%s: filtered row %s is not recognisably an entry of the filter's own index array" % (where, ix))
             continue
         it = ix.args[0]
-        lpi = sym_loop(s, it) if isinstance(it, sp.Symbol) else None
+        lpi, shift = entry_loop(s, it)
         if lpi is None:
-            ms.unknown.append("%s: index array is not subscripted by a plain loop variable" % where)
+            ms.unknown.append("%s: index array is not subscripted by a loop variable (+ constant)" % where)
             continue
         sv = mm.group(1)
-        if not (lpi["lo"] == 0 and lpi["hi"] == isym("this.%s.used_elements" % sv)):
-            ms.coverage.append("%s: loop over the filter entries runs over [%s,%s) instead of [0,%s.used_elements())" % (where, lpi["lo"], lpi["hi"], sv))
+        elo, ehi = sp.expand(lpi["lo"] + shift), sp.expand(lpi["hi"] + shift)
+        if not (elo == 0 and ehi == isym("this.%s.used_elements" % sv)):
+            ms.coverage.append("%s: loop over the filter entries runs over [%s,%s) instead of [0,%s.used_elements())" % (where, elo, ehi, sv))
         ms.i, ms.j, ms.ix, ms.sv = it, j, ix, sv
         ms.jsub = lp["sym"]
         ms.cells.setdefault(tuple(int(x) if x.is_Integer else x for x in s["idx"][1:]), []).append(s)
@@ -1599,8 +1887,15 @@ MEMBER_LABEL = {"_first": "first", "_rest": "rest", "_filter": "local"}
 FILTER_METHODS = ("filter_rhs", "filter_sol", "filter_def", "filter_cor", "filter_mat")
 
 
-def recv_label(n, by_decl):
-    """projection of the composite filter a component call is made on"""
+def recv_label(n, by_decl, alias=None):
+    """projection of the composite filter a component call is made on (reference / pointer alias locals resolved)"""
+    while n.get("k") == "Cast" and n.get("e") is not None:
+        n = n["e"]
+    if n.get("k") == "Un" and n.get("op") == "*" and (n.get("e") or {}).get("k") == "Ref":
+        n = n["e"]          # *p for a pointer alias p
+    if n.get("k") == "Ref" and alias is not None and n.get("d") in alias:
+        kind, lab = alias[n["d"]]
+        return lab if kind == "recv" else None
     if n.get("k") == "Member" and (n.get("b") or {}).get("k") == "This":
         return MEMBER_LABEL.get(n["n"])
     if n.get("k") == "MCall" and (n.get("obj") or {}).get("k") == "This" and not n.get("a"):
@@ -1616,12 +1911,20 @@ def recv_label(n, by_decl):
     return None
 
 
-def arg_label(n, vecparam_d):
-    """'whole' for the vector parameter itself, else the dotted projection path (first / rest / local / rest.first ...)"""
+def arg_label(n, vecparam_d, alias=None):
+    """'whole' for the vector parameter itself, else the dotted projection path (first / rest / local / rest.first ...);
+    reference / pointer alias locals are resolved"""
+    while n.get("k") == "Cast" and n.get("e") is not None:
+        n = n["e"]
+    if n.get("k") == "Un" and n.get("op") == "*" and (n.get("e") or {}).get("k") == "Ref":
+        n = n["e"]
     if n.get("k") == "Ref" and n.get("d") == vecparam_d:
         return "whole"
+    if n.get("k") == "Ref" and alias is not None and n.get("d") in alias:
+        kind, lab = alias[n["d"]]
+        return lab if kind == "arg" else None
     if n.get("k") == "MCall" and not n.get("a") and n.get("n") in ("first", "rest", "local"):
-        inner = arg_label(n.get("obj") or {}, vecparam_d)
+        inner = arg_label(n.get("obj") or {}, vecparam_d, alias)
         if inner is None:
             return None
         return n["n"] if inner == "whole" else inner + "." + n["n"]
@@ -1655,8 +1958,33 @@ def map_problems(fn, by_decl):
             return viol, ["%s: body is not a single loop over the sub-filters" % fn.full], 0
         lp = stmts[0]
         call = lp["body"]
-        if call.get("k") == "Block" and len(call.get("s", [])) == 1:
-            call = call["s"][0]
+        body_alias = {}       # reference aliases declared in the loop body in front of the call (`auto& flt = it->second;`)
+        if call.get("k") == "Block" and len(call.get("s", [])) >= 1:
+            pre, call = call["s"][:-1], call["s"][-1]
+            for st in pre:
+                ok_ = st.get("k") == "Decl" and all(v.get("ref") and v.get("init") is not None and
+                                                    all(x.get("k") in ("Ref", "Member", "OpCall", "Un", "Cast", "MCall") and (x.get("k") != "MCall" or x.get("cconst") or x.get("n") in ("at", "operator[]"))
+                                                        for x in walk(v["init"])) for v in st.get("vars", []))
+                if not ok_:
+                    return viol, ["%s: statement `%s` in the loop over the sub-filters is not a reference alias or the sub-filter call" % (fn.full, render(st)[:60])], 0
+                for v in st["vars"]:
+                    body_alias[v["d"]] = v["init"]
+
+        def unalias(x):
+            for _ in range(4):
+                y = x
+                while y.get("k") == "Cast" and y.get("e") is not None:
+                    y = y["e"]
+                if y.get("k") == "Ref" and y.get("d") in body_alias:
+                    x = body_alias[y["d"]]
+                else:
+                    break
+            return x
+        if call.get("k") == "MCall" and call.get("obj") is not None and body_alias:
+            o_ = unalias(call["obj"])
+            if o_.get("k") == "Member" and o_.get("b") is not None:
+                o_ = dict(o_, b=unalias(o_["b"]))
+            call = dict(call, obj=o_)
         if lp["k"] == "For":
             init = lp.get("init") or {}
             var = (init.get("vars") or [{}])[0]
@@ -1719,13 +2047,34 @@ def map_problems(fn, by_decl):
         return viol, ["%s: unknown composition class" % fn.full], 0
     comps, argrule, ordered = exp
     seen = []
+    alias = {}       # decl id of a reference / pointer alias local -> ("recv", component label) | ("arg", sub-vector label)
     for s in stmts:
+        if s.get("k") == "Decl":
+            # static_assert (no variables) / named aliases of a component or of a sub-vector
+            for v in s.get("vars", []):
+                ini = v.get("init")
+                ty = (fn.type(v["t"]) or "").strip()
+                if ini is not None and ini.get("k") == "Un" and ini.get("op") == "&" and ty.rstrip("const ").endswith("*"):
+                    ini, is_alias = ini["e"], True
+                else:
+                    is_alias = bool(v.get("ref"))
+                rl = recv_label(ini, by_decl, alias) if ini is not None and is_alias else None
+                al = arg_label(ini, pd, alias) if ini is not None and is_alias else None
+                if rl is not None:
+                    alias[v["d"]] = ("recv", rl)
+                elif al is not None:
+                    alias[v["d"]] = ("arg", al)
+                else:
+                    inc.append("%s: statement `%s` is not a component call (nor a reference alias of a component / sub-vector)" % (fn.full, render(s)[:80]))
+            continue
+        if s.get("k") == "Call" and s.get("callee") == "FEAT::assertion":
+            continue
         if s.get("k") == "MCall" and s.get("n", "").startswith("filter_"):
-            rl = recv_label(s.get("obj") or {}, by_decl)
+            rl = recv_label(s.get("obj") or {}, by_decl, alias)
             if rl is None:
                 inc.append("%s: component receiver %s not understood" % (fn.full, render(s.get("obj") or {})))
                 continue
-            al = arg_label(s["a"][0], pd) if len(s.get("a", [])) == 1 else None
+            al = arg_label(s["a"][0], pd, alias) if len(s.get("a", [])) == 1 else None
             if al is None:
                 inc.append("%s: component argument %s not understood" % (fn.full, render(s["a"][0]) if s.get("a") else "-"))
                 continue
